@@ -286,7 +286,8 @@ impl<'a> Interp<'a> {
     fn is_null_lit(e: &Expr) -> bool {
         match e {
             Expr::Lit(Val::Null) => true,
-            Expr::Paren(x) => Self::is_null_lit(x),
+            // parentheses and unary plus are dropped by the parser/compiler: still the literal
+            Expr::Paren(x) | Expr::Un(UnOp::Pos, x) => Self::is_null_lit(x),
             _ => false,
         }
     }
